@@ -142,8 +142,16 @@ theorem tile_size_ok (inp : TileIn) (inv : Bool) (w h : Nat) (shrink border : In
     unfold setBoundingBox Canvas.WF at *; simpa using hwf1
   have t := draws_touch _ (layoutOps_draw inp w h shrink border) _ hwf2
   have hgeo := t.geo
-  have hsz := t.wf.2
-  rw [hgeo] at hsz
+  have hsz : (List.foldl applyOp (setBoundingBox c1 border border (activeWH w h shrink border).1 (activeWH w h shrink border).2)
+      (layoutOps inp w h shrink border)).bytes.size = ((w + 7) / 8) * h := by
+    rw [t.size]
+    show c1.bytes.size = _
+    rw [← hc1]
+    have hwf0 : (invertPixels (newCanvas w h) inv).WF := by
+      have := newCanvas_wf w h
+      unfold invertPixels Canvas.WF at *; simpa using this
+    exact (fillRect_paint (invertPixels (newCanvas w h) inv) hwf0 0 0 w h false).size.trans
+      (by simp [invertPixels, newCanvas])
   have hW : (setBoundingBox c1 border border (activeWH w h shrink border).1 (activeWH w h shrink border).2).geo.W = w := by
     unfold setBoundingBox; simp only []; rw [hg1]; rfl
   have hH : (setBoundingBox c1 border border (activeWH w h shrink border).1 (activeWH w h shrink border).2).geo.H = h := by
@@ -151,7 +159,7 @@ theorem tile_size_ok (inp : TileIn) (inv : Bool) (w h : Nat) (shrink border : In
   have hwib : (setBoundingBox c1 border border (activeWH w h shrink border).1 (activeWH w h shrink border).2).geo.wib = (w + 7) / 8 := by
     unfold setBoundingBox; simp only []; rw [hg1]; rfl
   simp only []
-  rw [hgeo, hW, hH, hsz, hwib, hH]
+  rw [hgeo, hW, hH, hsz]
   refine ⟨⟨rfl, rfl, rfl⟩, ?_⟩
   unfold Spec.Tile.sizeOk Spec.Tile.wib specCase
   simp
